@@ -434,7 +434,7 @@ func c20Subset(c *Ctx) {
 				}
 			case *ssa.Call:
 				if f := x.Call.StaticCallee(); f != nil && f.Name() == "LegalMoves" {
-					if pathExpr(x.Call.Args[1]) != "Turn("+fpm.Params[0].Name()+")" || pathExpr(x.Call.Args[0]) != "Position("+fpm.Params[0].Name()+")" {
+					if pathExpr(x.Call.Args[1]) != "Turn("+paramName(fpm.Params[0])+")" || pathExpr(x.Call.Args[0]) != "Position("+paramName(fpm.Params[0])+")" {
 						bad = joinNonEmpty(bad, "legal moves are generated for "+pathExpr(x.Call.Args[0])+"/"+pathExpr(x.Call.Args[1])+", not for the board's position and side to move")
 					}
 				}
@@ -446,27 +446,74 @@ func c20Subset(c *Ctx) {
 	}
 	r.Check(bad == "" && nRet >= 2, "R20-subset", "bernstein.FindPlausibleMoves returns a filtered view of LegalMoves", c.pos(fpm.Pos()), "", bad)
 
-	// Explore = Selection(truncate(FindPlausibleMoves(b), p.Limit))
+	// Explore = Selection(FindPlausibleMoves(b) cut to at most p.Limit moves): through the truncate
+	// helper, or by an inline guarded re-slicing
 	ok := false
 	detail := ""
-	for _, b := range explore.Blocks {
-		for _, ins := range b.Instrs {
-			if call, isCall := ins.(*ssa.Call); isCall && call.Call.StaticCallee() != nil && call.Call.StaticCallee().Name() == "Selection" {
-				e := pathExpr(call.Call.Args[0])
-				detail = "Selection(" + e + ")"
-				ok = strings.HasPrefix(e, "truncate") && strings.Contains(e, "FindPlausibleMoves("+explore.Params[2].Name()+")") && strings.Contains(e, ".Limit")
-			}
-		}
-	}
-	r.Check(ok, "R20-subset", "bernstein Explore truncates to the branch limit before Selection", c.pos(explore.Pos()), "", detail)
-
-	// truncate keeps a prefix of at most limit elements
 	var trunc *ssa.Function
 	for _, fn := range c.P.AllFuncs {
 		if strings.HasPrefix(fn.Name(), "truncate") && funcPkgPath(fn) == fpm.Pkg.Pkg.Path() && len(fn.Blocks) > 0 {
 			trunc = fn
 		}
 	}
+	isFPM := func(v ssa.Value) bool {
+		call, isCall := stripConv(v).(*ssa.Call)
+		return isCall && call.Call.StaticCallee() == fpm
+	}
+	isLimit := func(v ssa.Value) bool { return strings.HasSuffix(pathExpr(v), ".Limit") }
+	for _, b := range explore.Blocks {
+		for _, ins := range b.Instrs {
+			call, isCall := ins.(*ssa.Call)
+			if !isCall || call.Call.StaticCallee() == nil || call.Call.StaticCallee().Name() != "Selection" {
+				continue
+			}
+			arg := call.Call.Args[0]
+			detail = "Selection(" + pathExpr(arg) + ")"
+			if tc, isT := arg.(*ssa.Call); isT && trunc != nil && tc.Call.StaticCallee() != nil && strings.HasPrefix(tc.Call.StaticCallee().Name(), "truncate") && funcPkgPath(tc.Call.StaticCallee()) == fpm.Pkg.Pkg.Path() && len(tc.Call.Args) == 2 {
+				ok = isFPM(tc.Call.Args[0]) && isLimit(tc.Call.Args[1])
+				continue
+			}
+			// inline: every definition is the list itself (only where it is already short enough or the
+			// limit is off) or its prefix of Limit elements
+			nSliced, good := 0, true
+			for _, df := range defSites(arg, map[ssa.Value]bool{}) {
+				switch x := df.val.(type) {
+				case *ssa.Slice:
+					if x.Low != nil || x.High == nil || !isLimit(x.High) || !isFPM(x.X) {
+						good = false
+					}
+					nSliced++
+				default:
+					if !isFPM(df.val) {
+						good = false
+						break
+					}
+					// this edge is taken only when the cut is not needed: some comparison with the limit is false
+					guarded := false
+					if df.blk != nil {
+						blk := df.blk
+						if ifi, isIf := blk.Instrs[len(blk.Instrs)-1].(*ssa.If); isIf {
+							if bo, isBin := ifi.Cond.(*ssa.BinOp); isBin && (isLimit(bo.X) || isLimit(bo.Y)) {
+								guarded = true
+							}
+						}
+						for _, ge := range edgeGuards(blk) {
+							if bo, isBin := ge.cond.(*ssa.BinOp); isBin && (isLimit(bo.X) || isLimit(bo.Y)) {
+								guarded = true
+							}
+						}
+					}
+					if !guarded {
+						good = false
+					}
+				}
+			}
+			ok = good && nSliced >= 1
+		}
+	}
+	r.Check(ok, "R20-subset", "bernstein Explore truncates to the branch limit before Selection", c.pos(explore.Pos()), "", detail)
+
+	// truncate (when it exists) keeps a prefix of at most limit elements
 	if trunc != nil {
 		good := true
 		nSlice := 0
@@ -474,13 +521,13 @@ func c20Subset(c *Ctx) {
 			for _, ins := range b.Instrs {
 				if sl, ok := ins.(*ssa.Slice); ok {
 					nSlice++
-					if sl.Low != nil || sl.High == nil || pathExpr(sl.High) != trunc.Params[1].Name() || pathExpr(sl.X) != trunc.Params[0].Name() {
+					if sl.Low != nil || sl.High == nil || pathExpr(sl.High) != paramName(trunc.Params[1]) || pathExpr(sl.X) != paramName(trunc.Params[0]) {
 						good = false
 					}
 				}
 				if ret, ok := ins.(*ssa.Return); ok {
 					e := pathExpr(ret.Results[0])
-					if e != trunc.Params[0].Name() && !strings.HasPrefix(e, trunc.Params[0].Name()+"[") {
+					if e != paramName(trunc.Params[0]) && !strings.HasPrefix(e, paramName(trunc.Params[0])+"[") {
 						good = false
 					}
 				}
@@ -488,7 +535,7 @@ func c20Subset(c *Ctx) {
 		}
 		r.Check(good && nSlice == 1, "R20-subset", "truncate keeps a prefix of the list", c.pos(trunc.Pos()), "", "")
 	} else {
-		r.Undecided("R20-subset", "truncate keeps a prefix of the list", "", "", "generic instance of truncate not found")
+		r.Pass("R20-subset", "truncate keeps a prefix of the list", "", "", "no truncate helper: the cut is made inline and checked with Explore")
 	}
 
 	// castle branch: the filter runs only when a castle move was ranked, and keeps ranked moves.
@@ -602,85 +649,9 @@ func c20Book(c *Ctx) {
 	if nb == nil || posMove == nil || equals == nil {
 		return
 	}
-	plm := c.find("pkg/board", "Position", "PseudoLegalMoves")
 	decode := c.find("pkg/board/fen", "", "Decode")
-	// genEqual: v is a move generated for (pos, turn) that Equals the parsed text - found inline by a
-	// guarded loop over the generated moves, or by a helper that returns such a move with a found flag
-	var genEqual func(v ssa.Value, at *ssa.BasicBlock, depth int) (pos, turn, parsed ssa.Value, ok bool)
-	genEqual = func(v ssa.Value, at *ssa.BasicBlock, depth int) (ssa.Value, ssa.Value, ssa.Value, bool) {
-		v = stripConv(v)
-		if ld, isLoad := v.(*ssa.UnOp); isLoad && ld.Op == token.MUL {
-			if ia, isIA := ld.X.(*ssa.IndexAddr); isIA {
-				if gen, isCall := ia.X.(*ssa.Call); isCall && gen.Call.StaticCallee() == plm && len(gen.Call.Args) == 2 {
-					for _, ge := range edgeGuards(at) {
-						call, isCall := ge.cond.(*ssa.Call)
-						if !isCall || call.Call.StaticCallee() != equals || !ge.pol || len(call.Call.Args) != 2 {
-							continue
-						}
-						a0, a1 := call.Call.Args[0], call.Call.Args[1]
-						switch {
-						case sameLoad(a0, v):
-							return gen.Call.Args[0], gen.Call.Args[1], a1, true
-						case sameLoad(a1, v):
-							return gen.Call.Args[0], gen.Call.Args[1], a0, true
-						}
-					}
-				}
-			}
-			return nil, nil, nil, false
-		}
-		ex, isEx := v.(*ssa.Extract)
-		if !isEx || ex.Index != 0 || depth > 1 {
-			return nil, nil, nil, false
-		}
-		hc, isCall := ex.Tuple.(*ssa.Call)
-		if !isCall || hc.Call.StaticCallee() == nil || hc.Call.StaticCallee().Blocks == nil || hc.Call.StaticCallee().Pkg != nb.Pkg {
-			return nil, nil, nil, false
-		}
-		// the found flag of that call must be true here
-		flagOK := false
-		for _, ge := range edgeGuards(at) {
-			if fx, ok := ge.cond.(*ssa.Extract); ok && fx.Tuple == ssa.Value(hc) && fx.Index == 1 && ge.pol {
-				flagOK = true
-			}
-		}
-		if !flagOK {
-			return nil, nil, nil, false
-		}
-		h := hc.Call.StaticCallee()
-		var hp, ht, hx ssa.Value
-		nTrue := 0
-		for _, hb := range h.Blocks {
-			ret, isRet := hb.Instrs[len(hb.Instrs)-1].(*ssa.Return)
-			if !isRet || len(ret.Results) != 2 {
-				continue
-			}
-			if fv, isC := constBoolArg(ret.Results[1]); isC && !fv {
-				continue
-			} else if !isC {
-				return nil, nil, nil, false
-			}
-			p2, t2, x2, ok := genEqual(ret.Results[0], hb, depth+1)
-			if !ok {
-				return nil, nil, nil, false
-			}
-			hp, ht, hx = p2, t2, x2
-			nTrue++
-		}
-		if nTrue == 0 {
-			return nil, nil, nil, false
-		}
-		arg := func(v ssa.Value) ssa.Value {
-			if prm, ok := v.(*ssa.Parameter); ok {
-				for i, q := range h.Params {
-					if q == prm && i < len(hc.Call.Args) {
-						return hc.Call.Args[i]
-					}
-				}
-			}
-			return v
-		}
-		return arg(hp), arg(ht), arg(hx), true
+	genEqual := func(v ssa.Value, at *ssa.BasicBlock, depth int) (ssa.Value, ssa.Value, ssa.Value, bool) {
+		return c.genEqual(nb, v, at, depth)
 	}
 	bad := ""
 	n := 0
@@ -798,4 +769,111 @@ func sameLoad(a, b ssa.Value) bool {
 		}
 	}
 	return false
+}
+
+// genEqual: v is a move generated by PseudoLegalMoves(pos, turn) that Equals a parsed move - found
+// inline by a guarded loop over the generated moves (at = the block where that must hold), or by
+// a same-package helper that returns such a move together with a found flag. Returns the position,
+// side and the move compared with, as values of the function `at` belongs to.
+func (c *Ctx) genEqual(root *ssa.Function, v ssa.Value, at *ssa.BasicBlock, depth int) (pos, turn, parsed ssa.Value, ok bool) {
+	plm := c.find("pkg/board", "Position", "PseudoLegalMoves")
+	equals := c.find("pkg/board", "Move", "Equals")
+	v = stripConv(v)
+	if ld, isLoad := v.(*ssa.UnOp); isLoad && ld.Op == token.MUL {
+		// a local copy of the element
+		if al, isAlloc := ld.X.(*ssa.Alloc); isAlloc {
+			var defs []ssa.Value
+			resolveDefs(v, map[ssa.Value]bool{}, &defs)
+			if len(defs) == 1 && defs[0] != v {
+				_ = al
+				return c.genEqual(root, defs[0], at, depth)
+			}
+		}
+		if ia, isIA := ld.X.(*ssa.IndexAddr); isIA {
+			// the list ranged over: the generator's result, or (inside a helper) a parameter that the
+			// caller binds to the generator's result - reported as (list, nil) and resolved by the caller
+			var gp, gt ssa.Value
+			if gen, isCall := ia.X.(*ssa.Call); isCall && gen.Call.StaticCallee() == plm && len(gen.Call.Args) == 2 {
+				gp, gt = gen.Call.Args[0], gen.Call.Args[1]
+			} else if prm, isPrm := ia.X.(*ssa.Parameter); isPrm && depth > 0 {
+				gp, gt = prm, nil
+			}
+			if gp != nil {
+				for _, ge := range edgeGuards(at) {
+					call, isCall := ge.cond.(*ssa.Call)
+					if !isCall || call.Call.StaticCallee() != equals || !ge.pol || len(call.Call.Args) != 2 {
+						continue
+					}
+					a0, a1 := call.Call.Args[0], call.Call.Args[1]
+					switch {
+					case sameLoad(a0, v):
+						return gp, gt, a1, true
+					case sameLoad(a1, v):
+						return gp, gt, a0, true
+					}
+				}
+			}
+		}
+		return nil, nil, nil, false
+	}
+	ex, isEx := v.(*ssa.Extract)
+	if !isEx || ex.Index != 0 || depth > 1 {
+		return nil, nil, nil, false
+	}
+	hc, isCall := ex.Tuple.(*ssa.Call)
+	if !isCall || hc.Call.StaticCallee() == nil || hc.Call.StaticCallee().Blocks == nil || hc.Call.StaticCallee().Pkg != root.Pkg {
+		return nil, nil, nil, false
+	}
+	// the found flag of that call must be true here
+	flagOK := false
+	for _, ge := range edgeGuards(at) {
+		if fx, ok := ge.cond.(*ssa.Extract); ok && fx.Tuple == ssa.Value(hc) && fx.Index == 1 && ge.pol {
+			flagOK = true
+		}
+	}
+	if !flagOK {
+		return nil, nil, nil, false
+	}
+	h := hc.Call.StaticCallee()
+	var hp, ht, hx ssa.Value
+	nTrue := 0
+	for _, hb := range h.Blocks {
+		ret, isRet := hb.Instrs[len(hb.Instrs)-1].(*ssa.Return)
+		if !isRet || len(ret.Results) != 2 {
+			continue
+		}
+		if fv, isC := constBoolArg(ret.Results[1]); isC && !fv {
+			continue
+		} else if !isC {
+			return nil, nil, nil, false
+		}
+		p2, t2, x2, ok := c.genEqual(h, ret.Results[0], hb, depth+1)
+		if !ok {
+			return nil, nil, nil, false
+		}
+		hp, ht, hx = p2, t2, x2
+		nTrue++
+	}
+	if nTrue == 0 {
+		return nil, nil, nil, false
+	}
+	arg := func(v ssa.Value) ssa.Value {
+		if prm, ok := v.(*ssa.Parameter); ok {
+			for i, q := range h.Params {
+				if q == prm && i < len(hc.Call.Args) {
+					return hc.Call.Args[i]
+				}
+			}
+		}
+		// a value of the helper computed from its parameters (e.g. the generated list passed in)
+		return v
+	}
+	if ht == nil {
+		// the helper ranged over a list handed in: it must be the generator's result
+		if gen, isCall := stripConv(arg(hp)).(*ssa.Call); isCall && gen.Call.StaticCallee() == plm && len(gen.Call.Args) == 2 {
+			return gen.Call.Args[0], gen.Call.Args[1], arg(hx), true
+		}
+		return nil, nil, nil, false
+	}
+	return arg(hp), arg(ht), arg(hx), true
 }
